@@ -227,6 +227,16 @@ func c16Observe(st quickfix.MessageStore, m *c16Model, full bool, salt int) (rul
 	if r, w := check(1, 8); r != "" {
 		return r, w
 	}
+	// (numbers may be far apart when the counter was moved forward: the whole range up to the highest saved number,
+	// and the stretch around it)
+	if m.hi > 8 {
+		if r, w := check(1, m.hi+1); r != "" {
+			return r, w
+		}
+		if r, w := check(m.hi-1, m.hi+1); r != "" {
+			return r, w
+		}
+	}
 	if full {
 		for b := 0; b <= 5; b++ {
 			for e := 0; e <= 5; e++ {
@@ -437,7 +447,7 @@ func init() {
 }
 
 func c16Alphabet() []c16Op {
-	return []c16Op{{K: "saveincr"}, {K: "save"}, {K: "incrS"}, {K: "incrT"}, {K: "setS", Arg: 1}, {K: "setS", Arg: 3}, {K: "setT", Arg: 1}, {K: "setT", Arg: 12},
+	return []c16Op{{K: "saveincr"}, {K: "save"}, {K: "incrS"}, {K: "incrT"}, {K: "setS", Arg: 1}, {K: "setS", Arg: 3}, {K: "setS", Arg: 2500}, {K: "setT", Arg: 1}, {K: "setT", Arg: 12},
 		{K: "iterabort", Arg: 1}, {K: "iterabort", Arg: 2}, {K: "refresh"}, {K: "reset"}, {K: "reopen"}}
 }
 
@@ -460,7 +470,7 @@ func runC16(c *core.Ctx) {
 		depth = map[string]int{"memory": 5, "file": 5, "file-nosync": 4, "sql": 4}
 		depth2 = 3
 	}
-	c.SetRule("all operation programs up to depth d over {save-and-increment, save, increments, set counters, iterate aborting at the j-th callback, Refresh, Reset, close+reopen} (message bytes rotate through 6 payloads incl. empty, commas/newlines, SOH/NUL/non-UTF-8, 5 kB) on the memory, file (sync on/off) and SQL (sqlite) stores; after every operation counters, creation time and ranges are compared with an abstract store; at the end all ranges, again after Refresh and through a fresh store on the same backing medium; plus two sessions with near-identical IDs (differing in exactly one identity field, for each field; differing by the qualifier; the same string as SubID of one and LocationID of the other) interleaved on one directory/database")
+	c.SetRule("all operation programs up to depth d over {save-and-increment, save, increments, set counters (also far ahead: 2500), iterate aborting at the j-th callback, Refresh, Reset, close+reopen} (message bytes rotate through 6 payloads incl. empty, commas/newlines, SOH/NUL/non-UTF-8, 5 kB) on the memory, file (sync on/off) and SQL (sqlite) stores; after every operation counters, creation time and ranges are compared with an abstract store; at the end all ranges, again after Refresh and through a fresh store on the same backing medium; plus two sessions with near-identical IDs (differing in exactly one identity field, for each field; differing by the qualifier; the same string as SubID of one and LocationID of the other) interleaved on one directory/database")
 	c.Assume("save numbers ascend within an epoch (a save-and-increment below the highest saved number is skipped)", "creation time is bounded by the wall-clock instants around open/Reset and must then stay Equal",
 		"Mongo store: no server in the sandbox, not executed", "SQL store exercised on sqlite through the repository's own schema files")
 	alpha := c16Alphabet()
